@@ -131,8 +131,8 @@ def c07(tier, replay):
         return run.finish()
     h = vcommon.build_harness()
     q = tier == "quick"
-    scen = make_scenarios(h, 8 if q else 40, 2 if q else 10, 4 if q else 20, 3 if q else 12, "C07")
-    totals, summ = run_expiry(run, "C07", h, scen, "small,mate,rep,game", 3, 2500 if q else 6000, 300000, 2, "expiry")
+    scen = make_scenarios(h, 8 if q else 40, 2 if q else 10, 4 if q else 20, 3 if q else 12, "C07", 10 if q else 60)
+    totals, summ = run_expiry(run, "C07", h, scen, "small,mate,rep,game,fam", 3, 2500 if q else 6000, 300000, 2, "expiry")
     if totals.get("srun", 0) == 0 or totals.get("cut_before_first", 0) == 0:
         raise ToolError("coverage hole: no expiry runs / no run cut before the first improvement")
     run.level = "fault_enumeration" if False else run.level
@@ -161,8 +161,8 @@ def c18(tier, replay):
         return run.finish()
     h = vcommon.build_harness()
     q = tier == "quick"
-    scen = make_scenarios(h, 6 if q else 30, 4 if q else 20, 3 if q else 15, 4 if q else 16, "C18")
-    totals, summ = run_expiry(run, "C18", h, scen, "small,mate,rep,game", 4, 1200 if q else 4000, 400000, 2, "expiry")
+    scen = make_scenarios(h, 6 if q else 30, 4 if q else 20, 3 if q else 15, 4 if q else 16, "C18", 8 if q else 50)
+    totals, summ = run_expiry(run, "C18", h, scen, "small,mate,rep,game,fam", 4, 1200 if q else 4000, 400000, 2, "expiry")
     if totals.get("infos", 0) == 0:
         raise ToolError("coverage hole: no info lines")
     os.remove(scen)
